@@ -14,14 +14,6 @@ pub enum Tree {
 }
 
 impl Tree {
-    pub fn depth(&self) -> usize {
-        match self {
-            Tree::Leaf(_) => 0,
-            Tree::Not(t) => 1 + t.depth(),
-            Tree::And(ts) | Tree::Or(ts) => 1 + ts.iter().map(|t| t.depth()).max().unwrap_or(0),
-        }
-    }
-
     /// Text the crate's parser is documented to read as this tree: composite nodes are always
     /// parenthesised, `NOT` is followed by a word run or a parenthesised expression.
     pub fn unparse(&self) -> String {
